@@ -202,6 +202,11 @@ func hook(ev string, obj, sub interface{}, a, b uint64) {
 	}
 	if r == nil && sub != nil {
 		r = lookup(sub)
+		if r == nil {
+			if c := rpc.VerifConn(sub); c != nil {
+				r = lookup(c)
+			}
+		}
 	}
 	if r == nil {
 		return
